@@ -14,7 +14,7 @@ from docx.text.run import Run
 from adeu.models import DocumentEdit, EditOperationType, ReviewAction
 from adeu.redline.comments import CommentsManager
 from adeu.redline.mapper import DocumentMapper
-from adeu.utils.docx import create_attribute, create_element, normalize_docx
+from adeu.utils.docx import create_attribute, create_element, iter_document_parts, normalize_docx
 
 logger = structlog.get_logger(__name__)
 
@@ -153,15 +153,21 @@ class RedlineEngine:
         to ensure new IDs do not collide.
         """
         max_id = 0
-        for tag in ["w:ins", "w:del"]:
-            elements = self.doc.element.xpath(f"//{tag}")
-            for el in elements:
-                try:
-                    val = int(el.get(qn("w:id")))
-                    if val > max_id:
-                        max_id = val
-                except (ValueError, TypeError):
-                    pass
+        # Headers and footers are separate parts: edits there take ids from the same counter,
+        # so their existing ids must be scanned as well.
+        roots = [self.doc.element]
+        for part in iter_document_parts(self.doc):
+            if part is not self.doc and getattr(part, "_element", None) is not None:
+                roots.append(part._element)
+        for root in roots:
+            for tag in ["w:ins", "w:del"]:
+                for el in root.xpath(f".//{tag}"):
+                    try:
+                        val = int(el.get(qn("w:id")))
+                        if val > max_id:
+                            max_id = val
+                    except (ValueError, TypeError):
+                        pass
         return max_id
 
     def _get_next_id(self):
